@@ -1083,11 +1083,17 @@ func (cpu *CPU) op_adc() {
 		sum := a + d + c
 
 		if cpu.D == 1 {
-			if (sum & 0x0F) > 0x09 {
-				sum = sum + 0x06
+			// decimal mode: add digit by digit so that the carry out of a digit is not lost
+			sum = (a & 0x0F) + (d & 0x0F) + c
+			if sum > 0x09 {
+				sum += 0x06
 			}
-			if (sum & 0xF0) > 0x90 {
-				sum = sum + 0x60
+			if sum > 0x0F {
+				sum = (sum & 0x0F) + 0x10
+			}
+			sum += (a & 0xF0) + (d & 0xF0)
+			if sum > 0x9F {
+				sum += 0x60
 			}
 		}
 
@@ -1113,17 +1119,31 @@ func (cpu *CPU) op_adc() {
 		sum := a + d + c
 
 		if cpu.D == 1 {
-			if (sum & 0x000F) > 0x0009 {
-				sum = sum + 0x0006
+			// decimal mode: add digit by digit so that the carry out of a digit is not lost
+			sum = (a & 0x000F) + (d & 0x000F) + c
+			if sum > 0x0009 {
+				sum += 0x0006
 			}
-			if (sum & 0x00F0) > 0x0090 {
-				sum = sum + 0x0060
+			if sum > 0x000F {
+				sum = (sum & 0x000F) + 0x0010
 			}
-			if (sum & 0x0F00) > 0x0900 {
-				sum = sum + 0x0600
+			sum += (a & 0x00F0) + (d & 0x00F0)
+			if sum > 0x009F {
+				sum += 0x0060
 			}
-			if (sum & 0xF000) > 0x9000 {
-				sum = sum + 0x6000
+			if sum > 0x00FF {
+				sum = (sum & 0x00FF) + 0x0100
+			}
+			sum += (a & 0x0F00) + (d & 0x0F00)
+			if sum > 0x09FF {
+				sum += 0x0600
+			}
+			if sum > 0x0FFF {
+				sum = (sum & 0x0FFF) + 0x1000
+			}
+			sum += (a & 0xF000) + (d & 0xF000)
+			if sum > 0x9FFF {
+				sum += 0x6000
 			}
 		}
 
@@ -1759,11 +1779,15 @@ func (cpu *CPU) op_sbc() {
 		sum := a + d + c
 
 		if cpu.D == 1 {
-			if (sum & 0x0F) > 0x09 {
-				sum = sum + 0x06
+			// decimal mode (d is the complemented operand): a digit that produces no carry
+			// has borrowed and is corrected by -6, which never carries into the next digit
+			sum = (a & 0x0F) + (d & 0x0F) + c
+			if sum <= 0x0F {
+				sum = (sum + 0x0A) & 0x0F
 			}
-			if (sum & 0xF0) > 0x90 {
-				sum = sum + 0x60
+			sum += (a & 0xF0) + (d & 0xF0)
+			if sum <= 0xFF {
+				sum = (sum + 0xA0) & 0xFF
 			}
 		}
 
@@ -1789,17 +1813,23 @@ func (cpu *CPU) op_sbc() {
 		sum := a + d + c
 
 		if cpu.D == 1 {
-			if (sum & 0x000F) > 0x0009 {
-				sum = sum + 0x0006
+			// decimal mode (d is the complemented operand): a digit that produces no carry
+			// has borrowed and is corrected by -6, which never carries into the next digit
+			sum = (a & 0x000F) + (d & 0x000F) + c
+			if sum <= 0x000F {
+				sum = (sum + 0x000A) & 0x000F
 			}
-			if (sum & 0x00F0) > 0x0090 {
-				sum = sum + 0x0060
+			sum += (a & 0x00F0) + (d & 0x00F0)
+			if sum <= 0x00FF {
+				sum = (sum + 0x00A0) & 0x00FF
 			}
-			if (sum & 0x0F00) > 0x0900 {
-				sum = sum + 0x0600
+			sum += (a & 0x0F00) + (d & 0x0F00)
+			if sum <= 0x0FFF {
+				sum = (sum + 0x0A00) & 0x0FFF
 			}
-			if (sum & 0xF000) > 0x9000 {
-				sum = sum + 0x6000
+			sum += (a & 0xF000) + (d & 0xF000)
+			if sum <= 0xFFFF {
+				sum = (sum + 0xA000) & 0xFFFF
 			}
 		}
 
